@@ -10,6 +10,7 @@ import json
 import math
 import os
 import re
+import zlib
 
 from .. import core
 from ..models import numeric as N
@@ -34,7 +35,10 @@ LITS = {
     "bigint": ["B0", "B1", "B2", "B3", "B31", "B32", "B127", "B128", "B255", "B2147483647", "B2147483648",
                "B4294967296", "B9223372036854775807", "B9223372036854775808", "B18446744073709551616",
                "B85070591730234615865843651857942052864", "B170141183460469231731687303715884105727",
-               "B0xff", "B0x7fff_ffff", "B1_000", "B0x7fffffffffffffffffffffffffffffff"],
+               "B0xff", "B0x7fff_ffff", "B1_000", "B0x7fffffffffffffffffffffffffffffff",
+               # neighbours closer than one ulp of a double (a folder that compares through f64 cannot tell them apart)
+               "B9007199254740992", "B9007199254740993", "B18446744073709551617",
+               "B170141183460469231731687303715884105726"],
     "float": ["0.0", "0.5", "1.0", "1.5", "2.0", "3.0", "0.1", "1f", "2F", "10f", "255.0", "1_000.5", "2147483648.0",
               "9007199254740992.0", "9007199254740993.0", "0.30000000000000004", "10000000000000000.0",
               F_1EM308, F_DENORM, F_1E308, F_MAX],
@@ -239,20 +243,51 @@ def in_context(e, ctx):
     return "[%s, 0b1]" % e, "typeof [%s, 0b1]" % e
 
 
+FORCED_MODE = {}      # folded text of a pinned tree -> unfolded rendering mode (see program())
+
+
 def program(cases, folded, tag="k"):
     lines = ['print "@@BEGIN"']
     for ci, (t, ctx) in enumerate(cases):
         if folded:
             e = render(t)
         else:
+            # how the operands reach the expression "through variables or parameters" depends on the tree only:
+            # 0 one variable per leaf, 1 equal leaves share ONE variable, 2 the expression sits in a function that
+            # captures the variables, 3 the operands are parameters of a function
+            mode = FORCED_MODE.get(render(t), zlib.crc32(render(t).encode()) % 4)
             ls = leaves(t)
             types = nil_types(t, [])
-            names = []
+            names, shared, ptypes = [], {}, []
             for li, (leaf, ty) in enumerate(zip(ls, types)):
+                text = "nil" if leaf[0] == "nil" else leaf[1]
+                if mode == 1 and (text, ty) in shared:
+                    names.append(shared[(text, ty)])
+                    continue
                 nm = "%s%d_%d" % (tag, ci, li)
                 names.append(nm)
-                text = "nil" if leaf[0] == "nil" else leaf[1]
+                shared[(text, ty)] = nm
                 lines.append("%s%s = %s" % (nm, ": " + ty if ty else "", text))
+                if ty:
+                    ptypes.append(ty)
+                elif leaf[0] == "lit" and N.literal_value(leaf[1])[0] in TYPE_TEXT:
+                    ptypes.append(TYPE_TEXT[N.literal_value(leaf[1])[0]])
+                else:
+                    ptypes.append(None)
+            if mode == 3 and (None in ptypes or not names):
+                mode = 0
+            if mode == 2:
+                e = render(t, names)
+                v, ty = in_context(e, ctx)
+                lines += ["%sq%d = fn() {" % (tag, ci), "  print " + v, "  print " + ty, "}", "%sq%d()" % (tag, ci)]
+                continue
+            if mode == 3:
+                ps = ["%sp%d_%d" % (tag, ci, li) for li in range(len(names))]
+                e = render(t, ps)
+                v, ty = in_context(e, ctx)
+                lines += ["%sq%d = fn(%s) {" % (tag, ci, ", ".join("%s: %s" % (p_, t_) for p_, t_ in zip(ps, ptypes))),
+                          "  print " + v, "  print " + ty, "}", "%sq%d(%s)" % (tag, ci, ", ".join(names))]
+                continue
             e = render(t, names)
         v, ty = in_context(e, ctx)
         lines.append("print " + v)
@@ -662,6 +697,27 @@ def catalogue():
     # static operator table for bitwise operators (former C02 finding, repaired) seen through a folded list element
     cases.append((("bin", "&", lit("0b1"), lit("0b1")), "list"))
     cases.append((("bin", "&", lit("1"), lit("B2")), "list"))
+    # comparisons of constants that are closer together than one ulp of a double (and of their int / float neighbours)
+    near = [("B9007199254740992", "B9007199254740993"), ("B18446744073709551616", "B18446744073709551617"),
+            ("B170141183460469231731687303715884105726", "B170141183460469231731687303715884105727"),
+            ("9007199254740993", "9007199254740992.0"), ("B9007199254740993", "9007199254740992.0"),
+            ("2147483647", "B2147483648"), ("16777217", "16777216.0")]
+    for a, b in near:
+        for op in ("<", "<=", ">", ">=", "==", "!="):
+            cases.append((("bin", op, lit(a), lit(b)), "plain"))
+            cases.append((("bin", op, lit(b), lit(a)), "plain"))
+            cases.append((("bin", op, neg(lit(a)), neg(lit(b))), "plain"))
+    # the SAME variable on both sides of every operator (`x - x`, `x xor x`, `x / x` ...), per kind
+    for x in ("5", "0", "2147483647", "B7", "B0", "B170141183460469231731687303715884105727", "1.5", "0.0", "0b101", "0b0",
+              "0b11111111", "2147483648"):
+        for op in ("+", "-", "*", "/", "%", "<<", ">>", "&", "|", "xor", "<", "<=", "==", "!="):
+            t = ("bin", op, lit(x), lit(x))
+            FORCED_MODE[render(t)] = 1
+            cases.append((t, "plain"))
+            t2 = ("bin", "|" if static_kind(lit(x)) != "float" else "+", t, lit(x)) if op in ("-", "xor", "&") else None
+            if t2 is not None:
+                FORCED_MODE[render(t2)] = 1
+                cases.append((t2, "plain"))
     cases.append((lit("170141183460469231731687303715884105728"), "plain"))       # fits no kind
     cases.append((lit("B170141183460469231731687303715884105728"), "plain"))
     cases.append((lit("0b100000000"), "plain"))                                  # 9 binary digits: a diagnostic
@@ -690,6 +746,9 @@ def catalogue():
                 cases.append((neg(("or", ("nil",), lit(x))), "plain"))
                 cases.append((neg(("get", lit(x))), "plain"))
     return cases
+
+
+catalogue()        # fills FORCED_MODE at import time, so that a replay renders a pinned tree the same way
 
 
 def matrix(step):
